@@ -259,3 +259,24 @@ package client
 //@     invariant forall k int :: 0 <= k && k < cur+i && someNonZero(b, k) ==> b[k] != 0
 //@     modifies cw, cw.readLeftover.buf
 //@     decreases c - i
+
+//@ func cobsEncode
+//@   props C16
+//@   fresh
+//@   ensures [C16] len(result) >= 2 && result[len(result)-1] == 0
+//@   loop 1:
+//@     invariant -1 <= rangeindex && rangeindex < len(p) || rangeindex == -1
+//@     invariant 0 <= codeIdx && (codeIdx < len(ret) || (codeIdx == len(ret) && rangeindex == len(p)-1)) && 1 <= code && code <= 254
+//@     invariant refOf(ret) == refOf(preloop(ret)) || sinceLoop(ret)
+//@     invariant isfresh(ret)
+//@     modifies ret
+//@     decreases len(p) - rangeindex
+
+//@ extern io.(ReadWriteCloser).Write(self, p)
+//@   modifies self
+
+//@ func (*CobsWrapper).Write
+//@   props C16
+//@   requires cw != nil
+//@   modifies cw.dev
+//@   assert [C16] frame-delimited: len(w) >= 3 && w[0] == 0 && w[len(w)-1] == 0 at "cw.dev.Write(w)"
